@@ -18,6 +18,7 @@ fn main() {
     match sub {
         "run" => run::main(&rest),
         "gcsched" => run::gcsched_main(&rest),
+        "leak" => run::leak_main(&rest),
         "c05" => c05::main(&rest),
         "c13" => c13::main(&rest),
         "c15" => c15::main(&rest),
